@@ -38,7 +38,7 @@ def setup(J):
         return {"level": "exploration", "stages": [lambda ctx, prev: jobs],
                 "rule": rule,
                 "assumptions": [
-                    "reference model = docs/writing_workflows.md 'Available path modifiers' applied left to right; a case is NOT judged (only 'no placeholder text survives') where the documentation is silent: search string occurring more than once in the value, %suffix equal to the whole value, dirname of a file directly under /; counted per reason under coverage.scenarios[].extra",
+                    "reference model = docs/writing_workflows.md 'Available path modifiers' applied left to right (s/a/b/ read as sed's substitute command without the g flag: where a occurs more than once the first occurrence is replaced); a case is NOT judged (only 'no placeholder text survives') where the documentation is silent: %suffix equal to the whole value, dirname of a file directly under /; counted per reason under coverage.scenarios[].extra",
                     "dirname of a value without any folder: documented result is 'only the folder path', i.e. the empty path; both spellings \"\" and \".\" are accepted",
                     "in a command an in-path is expected as seen from the task's execution directory, a direct sub-directory of the working directory: ../value for relative values, the value itself for absolute ones, and a bare file name when the chain contains basename (pinned by TestFormatCommand; that this resolves to the file is property C13's subject)",
                     "out-paths substituted into commands are relative and free of '..' (the encoding of ../ and / inside the execution directory is property C13's subject)",
